@@ -23,7 +23,7 @@ struct Case {
     target_pos: u8,
     /// what else the instance carries (left behind by other API calls): bit 0 = the target variable has a recorded
     /// value (partial_evaluate), bit 1 = that value is fractional, bit 2 = the instance records parameter values
-    /// (with_parameters), bit 3 = a dependency and a removed constraint exist
+    /// (with_parameters), bit 3 = a removed constraint exists, bit 5 = follow up with substitute + tightened bound + second encoding of the same variable
     decor: u8,
 }
 
@@ -206,6 +206,38 @@ fn check_case(case: &Case, ctx: &mut Ctx) -> PResult {
             Err(e) => return fail("C12/second-encode/err", format!("second log_encode failed ({e:#}): {}", what())),
         }
     }
+    // multi-step: encode, substitute the encoding for the variable, tighten the bound, encode the same variable
+    // again -- the second encoding must again consist of fresh binaries covering exactly the (new) range
+    if width >= 1 && case.decor & 32 != 0 {
+        let mut inst3 = inst.clone();
+        let mut rep = std::collections::HashMap::new();
+        rep.insert(id, crate::mk::flin(lin.clone()));
+        if inst3.substitute(rep).is_ok() {
+            ctx.label("encode-substitute-encode");
+            let (lo2, hi2) = if width >= 3 { (lo + 1.0, hi - 1.0) } else { (lo, hi) };
+            for v in inst3.decision_variables.iter_mut().filter(|v| v.id == id) {
+                v.bound = Some(crate::mk::bound(lo2, hi2));
+            }
+            let ids_now: BTreeSet<u64> = inst3.decision_variables.iter().map(|v| v.id).collect();
+            let n_before = inst3.decision_variables.len();
+            match inst3.log_encode(id) {
+                Ok(l3) => {
+                    let added: BTreeSet<u64> = inst3.decision_variables[n_before..].iter().map(|v| v.id).collect();
+                    let tids: BTreeSet<u64> = l3.terms.iter().map(|t| t.id).collect();
+                    if added.iter().any(|i| ids_now.contains(i)) || added.len() != inst3.decision_variables.len() - n_before {
+                        return fail("C12/re-encode/new-id-not-fresh", format!("encoding the variable again reused ids {added:?} (existing {ids_now:?}): {}", what()));
+                    }
+                    if tids != added {
+                        return fail("C12/re-encode/terms-vs-new-variables", format!("encoding the variable again (after substitute) returned an expression over {tids:?} but registered {added:?}: {}", what()));
+                    }
+                    if let Err(m) = covers_exactly(&l3, lo2, (hi2 - lo2) as u64) {
+                        return fail("C12/re-encode/value-set", format!("encoding the variable again with bound [{lo2}, {hi2}]: {m}: {}", what()));
+                    }
+                }
+                Err(e) => return fail("C12/re-encode/err", format!("encoding the variable again after substitute failed ({e:#}): {}", what())),
+            }
+        }
+    }
     if width == 0 {
         ctx.label("single-integer");
         if !lin.terms.is_empty() {
@@ -259,6 +291,32 @@ fn check_case(case: &Case, ctx: &mut Ctx) -> PResult {
         if sum != width {
             return fail("C12/value-outside-range", format!("coefficients sum to {sum}, range width is {width}: {}", what()));
         }
+    }
+    Ok(())
+}
+
+/// the expression takes exactly the values lo ..= lo + width over all bit patterns
+fn covers_exactly(lin: &v1::Linear, lo: f64, width: u64) -> Result<(), String> {
+    if lin.constant != lo {
+        return Err(format!("constant {} instead of {lo}", lin.constant));
+    }
+    let mut coefs: Vec<u64> = vec![];
+    for t in &lin.terms {
+        if !(t.coefficient >= 1.0) || t.coefficient.fract() != 0.0 || t.coefficient > 1e15 {
+            return Err(format!("coefficient {} is not a positive integer", t.coefficient));
+        }
+        coefs.push(t.coefficient as u64);
+    }
+    coefs.sort_unstable();
+    let mut acc: u64 = 0;
+    for c in &coefs {
+        if *c > acc + 1 {
+            return Err(format!("coefficients {coefs:?} leave a gap after {acc}"));
+        }
+        acc += c;
+    }
+    if acc != width {
+        return Err(format!("coefficients {coefs:?} reach {acc}, the range has width {width}"));
     }
     Ok(())
 }
@@ -390,7 +448,7 @@ impl Property for C12 {
     }
     fn required_labels(&self) -> Vec<String> {
         let mut v: Vec<String> = CLASS_NAMES.iter().map(|c| format!("class={c}")).collect();
-        v.extend(["fractional-bound", "width>4096", "single-integer", "oracle=all-bit-patterns", "oracle=complete-sequence", "child-process", "second-encode", "target-has-recorded-value", "instance-records-parameters"].iter().map(|s| s.to_string()));
+        v.extend(["fractional-bound", "width>4096", "single-integer", "oracle=all-bit-patterns", "oracle=complete-sequence", "child-process", "second-encode", "target-has-recorded-value", "instance-records-parameters", "encode-substitute-encode"].iter().map(|s| s.to_string()));
         v
     }
     fn cases(&self, tier: Tier) -> usize {
@@ -477,7 +535,7 @@ impl Property for C12 {
         if case.class != 0 || (w >= 2.0 && !((w as u64 + 1).is_power_of_two())) {
             ctx.nontrivial();
         }
-        ctx.fp_dbg(&(case.lower.to_bits(), case.upper.to_bits(), case.class, case.others % 6, case.target_pos, case.decor & 31));
+        ctx.fp_dbg(&(case.lower.to_bits(), case.upper.to_bits(), case.class, case.others % 6, case.target_pos, case.decor & 63));
         ctx.sample_with(|| json!({"lower": format!("{}", case.lower), "upper": format!("{}", case.upper), "class": CLASS_NAMES[case.class as usize], "other_variables": case.others % 6}));
         if matches!(case.class, 5 | 6 | 7 | 8) {
             ctx.label("child-process");
